@@ -73,6 +73,7 @@ type arunner struct {
 	msgs  map[uint64]*amirror
 	order []uint64
 	nontr bool
+	refAt map[int]int // per chain: the largest reference height index a removed request may have installed
 }
 
 // chains sorted as the evm keeper's chain-info store iterates them
@@ -145,7 +146,7 @@ func proofOf(p string) (*codectypes.Any, string, bool) {
 		return mk(&evmtypes.ValidatorBalancesAttestationRes{BlockHeight: uint64(1000 + a), Balances: bs}), fmt.Sprintf("(PGood 2 %d %d)", a*100+b, b), true
 	case strings.HasPrefix(p, "ref:"):
 		fmt.Sscanf(p, "ref:%d", &a)
-		return mk(&evmtypes.ReferenceBlockAttestationRes{BlockHeight: uint64(5000 + a), BlockHash: fmt.Sprintf("0x%064x", a+1)}), fmt.Sprintf("(PGood 3 %d 0)", a), true
+		return mk(&evmtypes.ReferenceBlockAttestationRes{BlockHeight: uint64(5000 + a), BlockHash: fmt.Sprintf("0x%064x", a+1)}), fmt.Sprintf("(PGood 3 %d 0)", 5000+a), true
 	case strings.HasPrefix(p, "txnr:"):
 		fmt.Sscanf(p, "txnr:%d", &a)
 		return mk(&evmtypes.TxExecutedProof{SerializedTX: txBytes(a)}), fmt.Sprintf("(PGood 0 %d 2)", 2*(1000+a)), true
@@ -197,7 +198,7 @@ func (r *arunner) register(before map[uint64]consensustypes.QueuedSignedMessageI
 }
 
 // unanimous, acceptable evidence of its own => must be attested in this block whatever else is queued
-func (m *amirror) mustGo(nv int) bool {
+func (m *amirror) mustGo(nv int, refAt map[int]int) bool {
 	if len(m.ev) != nv {
 		return false
 	}
@@ -216,8 +217,23 @@ func (m *amirror) mustGo(nv int) bool {
 	case "bal":
 		return first == fmt.Sprintf("bal:%d:%d", 1, m.n) || strings.HasSuffix(first, fmt.Sprintf(":%d", m.n)) && strings.HasPrefix(first, "bal:")
 	default:
-		return strings.HasPrefix(first, "ref:")
+		// the reference block only moves upwards (ErrInvalidReferenceBlockHeight otherwise)
+		var k int
+		if _, err := fmt.Sscanf(first, "ref:%d", &k); err != nil {
+			return false
+		}
+		return k > refAt[m.chain]
 	}
+}
+
+// another reference-block request of the same chain that may be attested earlier in the same block
+func (r *arunner) refBusy(m *amirror) bool {
+	for _, o := range r.msgs {
+		if o != m && !o.gone && o.kind == "ref" && o.chain == m.chain && len(o.ev) > 0 {
+			return true
+		}
+	}
+	return false
 }
 
 func (r *arunner) do(h xhop) {
@@ -351,7 +367,7 @@ func (r *arunner) do(h xhop) {
 		}
 		must := map[uint64]bool{}
 		for id, m := range r.msgs {
-			if !m.gone && m.mustGo(len(e.vals)) {
+			if !m.gone && m.mustGo(len(e.vals), r.refAt) && !(m.kind == "ref" && r.refBusy(m)) {
 				must[id] = true
 			}
 		}
@@ -371,6 +387,14 @@ func (r *arunner) do(h xhop) {
 					known = append(known, m)
 				} else if !m.gone {
 					m.gone = true
+					if m.kind == "ref" {
+						for _, p := range m.ev {
+							var k int
+							if _, err := fmt.Sscanf(p, "ref:%d", &k); err == nil && k > r.refAt[m.chain] {
+								r.refAt[m.chain] = k
+							}
+						}
+					}
 					r.nontr = true
 					r.run.Count("attest-fate", "removed:"+m.kind)
 				}
@@ -441,7 +465,7 @@ func newARunner(t *testing.T, run *emit.Run, powers []int64) *arunner {
 			t.Fatal(err)
 		}
 	}
-	ar := &arunner{t: t, run: run, e: e, msgs: map[uint64]*amirror{}}
+	ar := &arunner{t: t, run: run, e: e, msgs: map[uint64]*amirror{}, refAt: map[int]int{}}
 	var items []string
 	for i, p := range e.powers {
 		items = append(items, emit.Pair(emit.ZI(int64(i)), emit.ZI(p)))
